@@ -165,9 +165,14 @@ def postprocess(src, dst):
                         ev["nov"] = True       # the value of this event was not observable
                     lst.append(ev)
             streams[k] = lst
+        # aggregated pattern subscriptions: their streams are compared key by key (Trace_Session: Aggs)
+        aggs = sorted({"%s:%s" % (cids[name], r["tid"]) for name, log in sess.items() for r in log
+                       if r.get("op") == "psub" and r.get("agg") is not None and r.get("rep", {}).get("t") == "ok"})
+        for x in aggs:
+            streams.setdefault(x, [])
         total += sum(len(l) for l in sess.values()) + 1
         out.append({"sessions": {k: ({"log": v, "cid": cids[k]} if cids[k] != k else {"log": v}) for k, v in sess.items()},
-                    "streams": streams, "extmon": bool(sc.get("extmon")), "proto": sc.get("proto", "UNIX"),
+                    "streams": streams, "aggs": aggs, "extmon": bool(sc.get("extmon")), "proto": sc.get("proto", "UNIX"),
                     "exact": sc.get("exact", []), "extra": sc.get("extra", []),
                     "auth_required": bool(sc.get("auth_required"))})
     with open(dst, "w") as f:
@@ -278,6 +283,8 @@ def rand_request(rnd, name, tids, subs, lss, pubs, v1=True, odd=False):
         t = tid()
         subs.append(t)
         it.update(pat=pat_of(rnd, k, illegal=0.05), unique=rnd.random() < 0.5, live=rnd.random() < 0.4, tid=t)
+        if v1 and rnd.random() < 0.3:
+            it["agg"] = rnd.choice([1, 5, 20])          # aggregated: events batched over that many milliseconds
     elif op == "unsub":
         it.update(tid=subs.pop(rnd.randrange(len(subs))) if subs and rnd.random() < 0.8 else 998)
     elif op == "subls":
@@ -376,6 +383,49 @@ def with_extmon(rnd, scs, share=0.35, tcp=0.3):
         if "tasks" in sc:                       # client-library scenarios: unix socket, TCP or WebSocket
             sc["transport"] = rnd.choice(["unix", "unix", "tcp", "ws"])
     return scs
+
+
+def gen_c16_live(rnd, tier):
+    """aggregated pattern subscriptions on live sessions: one or two subscribers (aggregated, and plain for
+    comparison by the same specification), two writers that burst sets (values repeat) and deletes"""
+    out = []
+    for _ in range(12 if tier == "quick" else 200):
+        keys = [["a", "x"], ["a", "y"], ["a", "z", "w"], ["b"]]
+        t1 = [0]
+
+        def sub_items(name):
+            items = []
+            for j in range(rnd.randint(1, 2)):
+                t1[0] += 1
+                it = {"op": "psub", "c": name, "pat": rnd.choice([["a", "#"], ["a", "?"], ["#"]]), "unique": rnd.random() < 0.4,
+                      "live": rnd.random() < 0.4, "tid": t1[0], "wait": True}
+                if j == 0 or rnd.random() < 0.6:
+                    it["agg"] = rnd.choice([1, 3, 10, 30])
+                items.append(it)
+            return items
+        s1 = [{"op": "set", "c": "c1", "key": ["a", "x"], "val": "v0", "tid": 90, "wait": True}] + sub_items("c1") + [{"op": "barrier", "n": 0}, {"op": "barrier", "n": 1}]
+        writers = {}
+        for w in ("c2", "c3"):
+            items, t = [{"op": "barrier", "n": 0}], 0
+            for _k in range(rnd.randint(3, 12)):
+                t += 1
+                k = rnd.choice(keys)
+                r = rnd.random()
+                if r < 0.65:
+                    items.append({"op": "set", "c": w, "key": k, "val": rnd.choice(["x", "x", "y", "%s.%d" % (w, t)]), "tid": t})
+                elif r < 0.85:
+                    items.append({"op": "delete", "c": w, "key": k, "tid": t})
+                elif r < 0.93:
+                    items.append({"op": "pdelete", "c": w, "pat": ["a", "?"], "tid": t})
+                else:
+                    items.append({"op": "sleep", "ms": rnd.choice([1, 4, 12])})
+            last = [i for i in items if i.get("op") not in ("sleep", "barrier")]
+            if last:
+                last[-1]["wait"] = True
+            items.append({"op": "barrier", "n": 1})
+            writers[w] = items
+        out.append(dict({"sessions": dict({"c1": s1}, **writers)}, **({"transport": "tcp"} if rnd.random() < 0.3 else {})))
+    return out
 
 
 def gen_c17(rnd, tier):
